@@ -180,11 +180,12 @@ type CRLPlan struct {
 
 // EntryPlan is one CRL entry.
 type EntryPlan struct {
-	Match   bool
-	Reason  int // -1 absent
-	RevIdx  int // revocation time index 0..2 (hours before epoch-ish)
-	InvKind int
-	Crit    bool
+	Match     bool
+	Reason    int // -1 absent
+	RevIdx    int // revocation time index 0..2 (hours before epoch-ish)
+	InvKind   int
+	Crit      bool
+	CritFirst bool
 }
 
 func (e EntryPlan) String() string {
@@ -195,6 +196,9 @@ func (e EntryPlan) String() string {
 	s := fmt.Sprintf("%s/r%d/t%d/inv=%s", m, e.Reason, e.RevIdx, invNames[e.InvKind])
 	if e.Crit {
 		s += "/crit"
+		if e.CritFirst {
+			s += "_first"
+		}
 	}
 	return s
 }
@@ -263,6 +267,7 @@ const (
 	CancelBefore
 	CancelAt // at fake duration CancelAfter after the call started
 	CancelDeadline
+	CancelOnXchg // exactly when the library closes the body of a chosen exchange (an exchange boundary)
 )
 
 // Invalid-chain defects (C12.R4).
